@@ -1045,4 +1045,23 @@ theorem chunks_bounded (cfg : Cfg) (l : List NetTx) : ∀ c ∈ chunkTransaction
     · exact h3 c h
 
 
+
+theorem chunk_elems_mem (cfg : Cfg) (l : List NetTx) (c : List NetTx) (hc : c ∈ chunkTransactionList cfg l) : ∀ t ∈ c, t ∈ l := by
+  intro t ht
+  have : t ∈ (chunkTransactionList cfg l).flatten := List.mem_flatten.mpr ⟨c, hc, ht⟩
+  rwa [chunks_flatten] at this
+
+/-- every chunk stays within the room left for transactions whenever each transaction fits on its own -/
+theorem chunks_fit (cfg : Cfg) (l : List NetTx) (hfit : ∀ t ∈ l, netSize cfg t ≤ cfg.maxMsg - cfg.msgOverhead) :
+    ∀ c ∈ chunkTransactionList cfg l, csize cfg c ≤ cfg.maxMsg - cfg.msgOverhead := by
+  intro c hc
+  rcases chunks_bounded cfg l c hc with h | h
+  · exact h
+  · match c, h, hc with
+    | [], _, _ => simp [csize]
+    | [t], _, hc =>
+      have := hfit t (chunk_elems_mem cfg l [t] hc t List.mem_cons_self)
+      simp only [csize]; omega
+    | _ :: _ :: _, h, _ => simp at h
+
 end Nuts.Proto.L
